@@ -174,10 +174,10 @@ def install(R):
           modifies=["self.crop", "self._batch_cases", "self._counter", "self._batch_counter", "self.g_stream", "self.g_k"],
           ensures=[("inv0", "SowerInv(self)"), ("k0", "self.g_k == 0 and self._batch_counter == 0 and self.crop == crop")])
 
-    R.add(K + "Sower.save_batch", cls="Sower", result="none", props=["C07", "C04"],
+    R.add(K + "Sower.save_batch", cls="Sower", result="none", props=["C07", "C04", "C10"],
           requires=[("counter", "self._batch_counter >= 0")],
           modifies=["self._batch_counter", "self._batch_cases", "self._counter", "ghost:FS"],
-          raises={"OSError": dict()},
+          raises={"OSError": dict(ensures=["OldOrNewAtomically(BatchPath(self.crop.location, old(self._batch_counter) + 1), old(self._batch_cases))"])},
           ensures=[
               ("counter", "self._batch_counter == old(self._batch_counter) + 1 and self._counter == 0 and slen(self._batch_cases) == 0 and is_list(self._batch_cases)"),
               ("file", "fs_exists(BatchPath(self.crop.location, self._batch_counter)) and "
@@ -185,9 +185,10 @@ def install(R):
                        "fs_content(BatchPath(self.crop.location, self._batch_counter)) == old(self._batch_cases)"),
               ("frame", "fs_same_except(BatchPath(self.crop.location, self._batch_counter))"),
               ("results_untouched", "results_untouched(self.crop.location)"),
-          ])
+          ],
+          crash=[("crash.batch_file_old_or_complete", "OldOrNewAtomically(BatchPath(self.crop.location, old(self._batch_counter) + 1), old(self._batch_cases))")])
 
-    R.add(K + "Sower.__call__", cls="Sower", types={}, result="none", props=["C07", "C04"],
+    R.add(K + "Sower.__call__", cls="Sower", types={}, result="none", props=["C07", "C04", "C10"],
           requires=[("inv", "SowerInv(self)")],
           ghost_entry=["self.g_stream = snoc(self.g_stream, kwargs)", "self.g_k = self.g_k + 1"],
           modifies=["self._batch_counter", "self._batch_cases", "self._counter", "self.g_stream", "self.g_k", "ghost:FS"],
@@ -196,7 +197,8 @@ def install(R):
                    ("stream", "self.g_stream == snoc(old(self.g_stream), kwargs) and self.g_k == old(self.g_k) + 1"),
                    ("crop_frame", "self.crop == old(self.crop) and self.crop.batchsize == old(self.crop.batchsize) "
                                   "and self.crop._batch_remainder == old(self.crop._batch_remainder)"),
-                   ("results_untouched", "results_untouched(self.crop.location)")])
+                   ("results_untouched", "results_untouched(self.crop.location)")],
+          crash=[("crash.batch_file_old_or_complete", "OldOrNewAtomically(BatchPath(self.crop.location, old(self._batch_counter) + 1), snoc(old(self._batch_cases), kwargs))")])
 
     R.add(K + "Sower.__enter__", cls="Sower", inline=True)
 
